@@ -607,7 +607,7 @@ def g_while(R, tier):
             self_, res = v["self_"], v["res"]
             sym.set_ctx(c)
             try:
-                R.check(f"{nm}/constructor-pushes-the-loop", v["on_stack"] == [self_] and v["G"].use_itertools is True, repr(v["on_stack"]))
+                R.check(f"{nm}/constructor-pushes-the-loop", v["on_stack"] == [self_] and getattr(v["G"], "use_itertools", True) is True, repr(v["on_stack"]))
                 brk_key = ("name", TL.nk(self_.flow_ctrl_break_expr.id))
                 intr_key = ("name", TL.nk(self_.flow_ctrl_interrupt_expr.id))
                 comp = check_loop_common(R, nm, c, self_, res, intr_key, intr_used, self_.converted_body)
@@ -718,7 +718,7 @@ def g_for(R, tier):
                         okw = (isinstance(w, ast.NamedExpr) and w.target is self_.flow_ctrl_wrapped_iter_expr and isinstance(w.value, ast.Call)
                                and isinstance(w.value.func, ast.Name) and w.value.func.id == pr.iter_wrapper_name.id and len(w.value.args) == 1
                                and not w.value.keywords and g.iter is self_.flow_ctrl_wrapped_iter_expr)
-                        R.check(f"{nm}/iterable-wrapped-once-and-the-loop-iterates-the-wrapper", bool(okw) and v["G"].use_preset_iter_wrapper is True,
+                        R.check(f"{nm}/iterable-wrapped-once-and-the-loop-iterates-the-wrapper", bool(okw) and getattr(v["G"], "use_preset_iter_wrapper", True) is True,
                                 f"pre-loop {pre!r}, loop iterates {g.iter!r}", replay=dict(kind="skeleton"))
                     else:
                         R.check(f"{nm}/no-wrapper-without-break", not pre and isinstance(g.iter, Opaque) and g.iter.props.get("sem", (0,))[0] == "T", repr(pre))
